@@ -46,11 +46,42 @@ def evaluate(case):
     return None
 
 
+def evaluate_shared(case):
+    """one MSM object asked for several (tau, mode) combinations in sequence: every answer must still be the formula
+    (no state may leak from one request into the next)"""
+    from molgri.molecules.transitions import MSM
+    traj = case["traj"]
+    arr = np.array([np.nan if x is None else float(x) for x in traj], dtype=float)
+    n = case["n_cells"]
+    with quiet():
+        msm = MSM(arr, n)
+        for tau, noncorr in case["requests"]:
+            T = msm.get_one_tau_transition_matrix(tau, noncorrelated_windows=noncorr)
+            Td = np.asarray(T.todense())
+            exp, _ = oracle(traj, n, int(tau), noncorr)
+            if not np.allclose(Td, exp, rtol=1e-12, atol=1e-15):
+                return f"same MSM object, request (tau={tau}, noncorrelated={noncorr}) after {case['requests']}: entries differ from the formula"
+        taus = np.array(sorted({t for t, _ in case["requests"]}))
+        for noncorr in (True, False):
+            allT = msm.get_all_tau_transition_matrices(taus, noncorrelated_windows=noncorr)
+            for t, T in zip(taus, allT):
+                exp, _ = oracle(traj, n, int(t), noncorr)
+                if not np.allclose(np.asarray(T.todense()), exp, rtol=1e-12, atol=1e-15):
+                    return f"get_all_tau_transition_matrices(tau={t}, noncorrelated={noncorr}) on a used object differs from the formula"
+    return None
+
+
+def evaluate_any(case):
+    return evaluate_shared(case) if "requests" in case else evaluate(case)
+
+
 def run(tier, seed):
     maxlen = 6 if tier == "quick" else 8
     res = Result("C12", rule=f"ALL trajectories over the alphabet {{0,1,2,NaN}} of length 0..{maxlen} (3 cells, one never-visited 4th "
                  "cell in half of them), tau in {1,2,3}, both window modes, plus random long trajectories (length <= 400, <= 12 cells, "
-                 "NaN runs, float tau); distinct by (trajectory, tau, mode); non-trivial = at least one counted window",
+                 "NaN runs, float tau; extra never-visited cells), plus request histories on ONE MSM object (same lag in both modes, "
+                 "repeated requests, get_all_tau_transition_matrices); distinct by (trajectory, tau, mode); non-trivial = at least one "
+                 "counted window",
                  bound=f"exhaustive length <= {maxlen} over 4 symbols; {200 if tier == 'quick' else 3000} random", exhaustive=True,
                  oracle="brute-force window counts, symmetrised and row-normalised", tolerances={"rtol": 1e-12})
     alphabet = [0, 1, 2, None]
@@ -87,9 +118,24 @@ def run(tier, seed):
             f = f"exception {type(e).__name__}: {e}"
         if f:
             res.fail(f, case, clause="transition matrix formula (random)")
+    # histories on one object (both modes, several lags, repeated requests)
+    for i in range(60 if tier == "quick" else 600):
+        n = int(rng.integers(2, 7))
+        L = int(rng.integers(5, 60))
+        traj = [None if rng.random() < 0.1 else int(rng.integers(0, n)) for _ in range(L)]
+        reqs = [[int(rng.integers(1, 6)), bool(rng.random() < 0.5)] for _ in range(4)]
+        reqs += [[reqs[0][0], not reqs[0][1]], [reqs[1][0], not reqs[1][1]], reqs[0]]
+        case = {"traj": traj, "n_cells": n + int(rng.integers(0, 3)), "requests": reqs}
+        res.case(("shared", i, seed), nontrivial=True, sample=case if i == 0 else None)
+        try:
+            f = evaluate_shared(case)
+        except Exception as e:
+            f = f"exception {type(e).__name__}: {e}"
+        if f:
+            res.fail(f, case, clause="history independence of one MSM object")
     res.clause("entries, row sums, range, detailed balance, reversal invariance", res.evaluations)
     return res
 
 
 def replay(case):
-    return evaluate(case)
+    return evaluate_any(case)
